@@ -95,6 +95,15 @@ def run(env, tier, seed, broken=None):
             if op == '**' and rng.random() < 0.8:
                 b = str(rng.choice([0, 1, 2, 3, -1, -2, 0.5, -0.5, 10, 31, 64, 1023, 1024, -1074, 7]))
             cases.append({'id': cid, 'src': '%s %s %s %s;\n' % (lang.PRINT, a, op, b)})
+    # ** at the edges of the exponent range: results and intermediate powers that overflow, underflow or are subnormal
+    # (x ** -n is not 1 / x ** n when x ** n overflows), integral exponents around every power of two up to 1075
+    pbases = ['10', '2', '3', '0.1', '0.5', '1.5', '9007199254740992', '0.00001', '7', '-10', '-2', '10000000000', '123456789', '0.3', '1.0000001', '5e-324' if False else '0.0000000001']
+    pexps = [20, 22, 23, 63, 64, 65, 127, 128, 300, 305, 307, 308, 309, 310, 315, 320, 323, 324, 325, 330, 511, 512, 513, 1022, 1023, 1024, 1074, 1075]
+    for bi, pb in enumerate(pbases):
+        es = [e for k, e in enumerate(pexps) if tier == 'thorough' or (k + bi) % 2 == 0]
+        for sgn in ('', '-'):
+            cid = 'pw%d' % n; n += 1
+            cases.append({'id': cid, 'src': ''.join('%s (%s) ** %s%d;\n' % (lang.PRINT, pb, sgn, e) for e in es)})
     for _ in range(2000 if tier == 'quick' else 50000):
         cid = 'x%d' % n; n += 1
         cases.append({'id': cid, 'src': pools.SETUP + '%s %s;\n' % (lang.PRINT, nested(rng, rng.randint(2, 4)))})
